@@ -58,6 +58,8 @@ def gen_value(rng, attr):
     if attr == "laser_length":
         return logu(rng, 0.02, 5.0)
     if attr == "laser_radius":
+        if rng.random() < 0.05:
+            return logu(rng, 1e-3, 4e-3)        # a very thin laser: up to a few thousand segments
         return logu(rng, 0.004, 0.5)
     if attr == "pulse_energy":
         return logu(rng, 1e-3, 10.0)
